@@ -197,6 +197,9 @@ func runCorpus(b *fw.B, rootsOnly bool) {
 			if sc.IsFixed() && sc.Kind != rs.Container && sc.Kind != rs.Vector {
 				nn = n/4 + 2
 			}
+			if rootsOnly {
+				corpusZeroValue(b, e, ps.name, ps.spec, sc)
+			}
 			for k := 0; k < nn && !b.Stop(); k++ {
 				budget := 3000
 				if big {
@@ -585,4 +588,33 @@ func corpusConversions(b *fw.B, e schemas.Entry, preset string, spec *common.Spe
 	if problem != "" {
 		b.Violate("convert/Raw/"+e.Name, fmt.Sprintf("%s (%s preset): %s", e.Name, preset, problem), map[string]any{"ssz_hex": fmt.Sprintf("%x", enc[:min(len(enc), 4000)])})
 	}
+}
+
+// zeroValueNotAValue: types whose Go zero value is not a value of the SSZ type, because a fixed-length vector is held in a Go
+// slice and nil has the wrong length (the library has no defaulting for these; its own code always allocates them).
+var zeroValueNotAValue = map[string]bool{
+	"phase0.HistoricalBatchRoots": true, "phase0.HistoricalBatch": true, "phase0.RandaoMixes": true, "phase0.SlashingsHistory": true,
+	"common.SyncCommitteePubkeys": true, "common.SyncCommittee": true, "altair.LightClientSnapshot": true, "altair.LightClientUpdate": true,
+	"phase0.BeaconState": true, "altair.BeaconState": true, "bellatrix.BeaconState": true, "capella.BeaconState": true, "deneb.BeaconState": true, "electra.BeaconState": true,
+}
+
+// corpusZeroValue: the Go zero value of a struct-form type (what `var x T` or a composite literal without that field gives)
+// is the type's default value for every type outside zeroValueNotAValue (bitvector and byte-vector fields held in slices
+// have an explicit nil branch in the library): its root must be the default value's root.
+func corpusZeroValue(b *fw.B, e schemas.Entry, preset string, spec *common.Spec, sc *rs.Schema) {
+	if zeroValueNotAValue[e.Name] {
+		b.Inc("zero_values_not_judged")
+		return
+	}
+	o := sszObj{spec, e.New()}
+	var got common.Root
+	if !b.NoPanic("root/zero-value-panic/"+e.Name, func() { got = o.root() }) {
+		return
+	}
+	want := rs.HashTreeRoot(sc, rs.Default(sc))
+	if [32]byte(got) != want {
+		b.Violate("root/zero-value/"+e.Name, fmt.Sprintf("%s (%s preset): the root of the Go zero value is %x, the root of the type's default value is %x", e.Name, preset, got[:6], want[:6]), nil)
+		return
+	}
+	b.Inc("zero_value_roots_equal_default")
 }
